@@ -72,7 +72,7 @@ TBegin == IsEvent("Begin") /\ E.st = "ok" /\ Begin
 TCall ==
   /\ IsEvent("Call")
   /\ E.st = Status(ro, buf, E.c)
-  /\ (E.st = "ok" => ValMatches(buf, E.c, E.v))
+  /\ (E.st = "ok" => TRUE = ValMatches(buf, E.c, E.v))
   /\ Call(E.c)
 
 TCommit  == IsEvent("Commit") /\ E.st = CommitStatus /\ Commit
